@@ -40,3 +40,66 @@ pub async fn verif_read_n(len: usize, total: usize, chunks: &[usize]) -> Result<
         Err(e) => Err(format!("{:?}", e.kind())),
     }
 }
+
+struct VerifSink {
+    got: std::sync::Arc<std::sync::atomic::AtomicUsize>,
+}
+impl Actor for VerifSink {
+    type Msg = SessionMessage;
+    type State = ();
+    type Arguments = ();
+    async fn pre_start(&self, _: ActorRef<SessionMessage>, _: ()) -> Result<(), ActorProcessingErr> {
+        Ok(())
+    }
+    async fn handle(&self, _: ActorRef<SessionMessage>, m: SessionMessage, _: &mut ()) -> Result<(), ActorProcessingErr> {
+        if let SessionMessage::ObjectAvailable(_) = m {
+            self.got.fetch_add(1, std::sync::atomic::Ordering::SeqCst);
+        }
+        Ok(())
+    }
+}
+
+/// A bytes-then-EOF reader delivering `stream` in pieces of `piece` bytes.
+struct VerifBytesReader {
+    data: Vec<u8>,
+    pos: usize,
+    piece: usize,
+}
+impl tokio::io::AsyncRead for VerifBytesReader {
+    fn poll_read(mut self: std::pin::Pin<&mut Self>, _cx: &mut std::task::Context<'_>, buf: &mut tokio::io::ReadBuf<'_>) -> std::task::Poll<std::io::Result<()>> {
+        let n = (self.data.len() - self.pos).min(self.piece.max(1)).min(buf.remaining());
+        let (a, b) = (self.pos, self.pos + n);
+        buf.put_slice(&self.data[a..b]);
+        self.pos = b;
+        std::task::Poll::Ready(Ok(()))
+    }
+}
+
+/// The real SessionReader actor over a stream of `good` valid frames followed by `tail` raw bytes, then EOF, delivered `piece` bytes at a time.
+/// Returns (frames that reached the session, reader status when the stream is exhausted, is the session (sink) still running).
+pub async fn verif_reader_actor(good: usize, tail: Vec<u8>, piece: usize, max_frame: u64) -> (usize, String, bool) {
+    use prost::Message;
+    let got = std::sync::Arc::new(std::sync::atomic::AtomicUsize::new(0));
+    let (sink, _sh) = Actor::spawn(None, VerifSink { got: got.clone() }, ()).await.unwrap();
+    let msg = crate::protocol::NetworkMessage {
+        message: Some(crate::protocol::meta::network_message::Message::Node(crate::protocol::node::NodeMessage {
+            msg: Some(crate::protocol::node::node_message::Msg::Cast(crate::protocol::node::Cast { to: 42, what: vec![1, 2, 3, 4], variant: "test".to_string(), metadata: None })),
+        })),
+    };
+    let payload = msg.encode_to_vec();
+    let mut data = Vec::new();
+    for _ in 0..good {
+        data.extend_from_slice(&(payload.len() as u64).to_be_bytes());
+        data.extend_from_slice(&payload);
+    }
+    data.extend_from_slice(&tail);
+    let half = ActorReadHalf::External(Box::new(VerifBytesReader { data, pos: 0, piece }));
+    let (reader, rh) = Actor::spawn(None, SessionReader { session: sink.clone(), max_inbound_frame_size: max_frame }, half).await.unwrap();
+    let _ = tokio::time::timeout(std::time::Duration::from_secs(5), rh).await;
+    tokio::time::sleep(std::time::Duration::from_millis(30)).await;
+    let status = format!("{:?}", reader.get_status());
+    let sink_alive = sink.get_status() == ractor::ActorStatus::Running;
+    let n = got.load(std::sync::atomic::Ordering::SeqCst);
+    sink.stop(None);
+    (n, status, sink_alive)
+}
